@@ -371,58 +371,15 @@ theorem chunk_query_total (virtualIO : Bool) (datalen len ans : Nat) :
 example : Sf.ChunkQuery.getChunkData true 32 31 1000 = some 1 ∧ Sf.ChunkQuery.getChunkData true 0 31 1000 = some 0 ∧
     Sf.ChunkQuery.getChunkData true 8 0 0 = some 0 := by decide
 
-/-! ## 5. the SDS block-count scan: a loop whose termination depends on the I/O layer -/
-open Sf.SdsScan in
-/-- running time bounded by the input size, at full strength: whatever the I/O layer answers, the scan
-    of a header announced as `filelength` bytes ends within filelength/125 + 1 iterations -/
-def sds_scan_bounded_full : Prop :=
-  ∀ (inputBytes : Int) (filelength : Int) (o : Nat → Nat × Nat) (bytesread : Int) (marker : Nat), 0 ≤ bytesread → 0 ≤ inputBytes →
-    (scan filelength o (inputBytes / 125 + 1).toNat 0 bytesread marker).isSome
+/-! ## 5. the SDS block-count scan: a loop whose termination depended on the I/O layer
+
+Repaired in /repo 62c7950 (known finding KF-C03-sds-pipe-scan, now `fixed`; its witness is replayed as a
+regression test on every run).  The current rule is proved at full strength; the old rule's failure is
+kept as a theorem about `Rule.old`. -/
 
 open Sf.SdsScan in
-theorem scan_eof_runs (filelength : Int) : ∀ (fuel k : Nat) (b : Int) (m : Nat), m ≠ 0 → b + 125 * fuel < filelength →
-    scan filelength eof fuel k b m = none := by
-  intro fuel
-  induction fuel with
-  | zero =>
-    intro k b m _ hb
-    unfold scan
-    have h1 : b < filelength := by omega
-    simp [h1]
-  | succ n ih =>
-    intro k b m hm hb
-    unfold scan
-    have h1 : b < filelength := by omega
-    simp only [h1, if_true, eof]
-    simp only [if_true, hm, if_false]
-    apply ih _ _ _ hm
-    simp [SDS_BLOCK_SIZE]
-    omega
-
-open Sf.SdsScan in
-/-- … which fails for a pipe (filelength = SF_COUNT_MAX): at end of input `marker` keeps its last
-    non-zero value and the loop is still running after 10^15 iterations on a 19-byte input
-    (witness: findings/C03-sds-pipe-scan.txt) -/
-theorem sds_scan_running : ∃ (o : Nat → Nat × Nat) (marker : Nat),
-    scan SF_COUNT_MAX o 1000000000000000 0 19 marker = none :=
-  ⟨eof, 0xF07E, scan_eof_runs SF_COUNT_MAX 1000000000000000 0 19 0xF07E (by decide) (by decide)⟩
-
-open Sf.SdsScan in
-theorem sds_scan_bounded_fails : ¬ sds_scan_bounded_full := by
-  intro h
-  have h1 := h 19 SF_COUNT_MAX eof 19 0xF07E (by decide) (by decide)
-  have h2 := scan_eof_runs SF_COUNT_MAX (19 / 125 + 1 : Int).toNat 0 19 0xF07E (by decide) (by decide)
-  rw [h2] at h1
-  cases h1
-
-/-- the known-finding class: the scan runs against an unbounded announced length (non-seekable input) -/
-def KF.sdsPipe (filelength : Int) : Prop := filelength = Sf.SdsScan.SF_COUNT_MAX
-
-instance (l : Int) : Decidable (KF.sdsPipe l) := by unfold KF.sdsPipe; infer_instance
-
-open Sf.SdsScan in
-theorem scan_terminates (filelength : Int) (o : Nat → Nat × Nat) : ∀ (fuel k : Nat) (b : Int) (m : Nat),
-    0 ≤ b → filelength - b ≤ 125 * fuel → (scan filelength o fuel k b m).isSome := by
+theorem scan_terminates (r : Rule) (filelength : Int) (o : Nat → Nat × Nat) : ∀ (fuel k : Nat) (b : Int) (m : Nat),
+    0 ≤ b → filelength - b ≤ 125 * fuel → (scan r filelength o fuel k b m).isSome := by
   intro fuel
   induction fuel with
   | zero =>
@@ -436,9 +393,11 @@ theorem scan_terminates (filelength : Int) (o : Nat → Nat × Nat) : ∀ (fuel 
     by_cases hlt : b < filelength
     · simp only [hlt, if_true]
       generalize (if (o k).1 = 0 then m else (o k).2) = m'
-      by_cases hm : m' = 0
-      · simp [hm]
-      · simp only [hm, if_false]
+      generalize stopNow r (if (o k).1 ≥ 2 then (2 : Int) else ((o k).1 : Int)) m' = stop
+      cases stop with
+      | true => simp
+      | false =>
+        simp only [Bool.false_eq_true, if_false]
         have hg : 0 ≤ (if (o k).1 ≥ 2 then (2 : Int) else ((o k).1 : Int)) := by split <;> omega
         apply ih
         · simp only [SDS_BLOCK_SIZE]; omega
@@ -446,12 +405,11 @@ theorem scan_terminates (filelength : Int) (o : Nat → Nat × Nat) : ∀ (fuel 
     · simp [hlt]
 
 open Sf.SdsScan in
-/-- for every real file length (regular files, virtual I/O: 0 ≤ length, not the SF_COUNT_MAX a pipe
-    announces) the scan ends within filelength/125 + 1 iterations, for every behaviour of the I/O
-    layer and every file content -/
-theorem sds_scan_bounded_partial (filelength : Int) (o : Nat → Nat × Nat) (bytesread : Int) (marker : Nat)
-    (h0 : 0 ≤ bytesread) (hf : 0 ≤ filelength) (_hk : ¬ KF.sdsPipe filelength) :
-    (scan filelength o (filelength / 125 + 1).toNat 0 bytesread marker).isSome := by
+/-- for a real file length the scan ends within filelength/125 + 1 iterations, under either rule, for
+    every behaviour of the I/O layer and every file content -/
+theorem sds_scan_bounded_by_length (r : Rule) (filelength : Int) (o : Nat → Nat × Nat) (bytesread : Int) (marker : Nat)
+    (h0 : 0 ≤ bytesread) (hf : 0 ≤ filelength) :
+    (scan r filelength o (filelength / 125 + 1).toNat 0 bytesread marker).isSome := by
   apply scan_terminates
   · exact h0
   · have h1 : 0 ≤ filelength / 125 := Int.ediv_nonneg hf (by omega)
@@ -461,8 +419,84 @@ theorem sds_scan_bounded_partial (filelength : Int) (o : Nat → Nat × Nat) (by
     have := Int.emod_lt_of_pos filelength (show (0 : Int) < 125 by omega)
     omega
 
-/-- non-vacuity: a 402-byte file (3 blocks) is scanned in 3 iterations; the pipe case is in the class -/
-example : Sf.SdsScan.scan 402 (fun _ => (2, 0xF07E)) 4 0 21 0xF07E = some 3 ∧ KF.sdsPipe Sf.SdsScan.SF_COUNT_MAX ∧ ¬ KF.sdsPipe 402 := by decide
+open Sf.SdsScan in
+theorem scan_current_stops_on_short_read (filelength : Int) (o : Nat → Nat × Nat) (N : Nat)
+    (hN : ∀ k, N ≤ k → (o k).1 < 2) : ∀ (n k : Nat) (b : Int) (m : Nat), N ≤ k + n →
+    (scan .current filelength o (n + 1) k b m).isSome := by
+  intro n
+  induction n with
+  | zero =>
+    intro k b m h
+    unfold scan
+    by_cases hlt : b < filelength
+    · have hk := hN k (by omega)
+      have hg : (if (o k).1 ≥ 2 then (2 : Int) else ((o k).1 : Int)) ≠ 2 := by
+        split <;> omega
+      simp [hlt, stopNow, hg]
+    · simp [hlt]
+  | succ n ih =>
+    intro k b m h
+    unfold scan
+    by_cases hlt : b < filelength
+    · simp only [hlt, if_true]
+      generalize (if (o k).1 = 0 then m else (o k).2) = m'
+      generalize stopNow .current (if (o k).1 ≥ 2 then (2 : Int) else ((o k).1 : Int)) m' = stop
+      cases stop with
+      | true => simp
+      | false =>
+        simp only [Bool.false_eq_true, if_false]
+        exact ih (k + 1) _ _ (by omega)
+    · simp [hlt]
+
+open Sf.SdsScan in
+/-- C03's "time bounded by the input size" for the scan, at FULL strength for the current code: whatever
+    length the file announces (SF_COUNT_MAX for a pipe included), whatever the bytes are, if the input can
+    satisfy at most N complete 2-byte reads (N ≤ input bytes / 2) the scan ends within N + 1 iterations -/
+theorem sds_scan_bounded (filelength : Int) (o : Nat → Nat × Nat) (N : Nat) (bytesread : Int) (marker : Nat)
+    (hN : ∀ k, N ≤ k → (o k).1 < 2) :
+    (scan .current filelength o (N + 1) 0 bytesread marker).isSome :=
+  scan_current_stops_on_short_read filelength o N hN N 0 bytesread marker (by omega)
+
+open Sf.SdsScan in
+theorem scan_eof_runs_old_rule (filelength : Int) : ∀ (fuel k : Nat) (b : Int) (m : Nat), m ≠ 0 → b + 125 * fuel < filelength →
+    scan .old filelength eof fuel k b m = none := by
+  intro fuel
+  induction fuel with
+  | zero =>
+    intro k b m _ hb
+    unfold scan
+    have h1 : b < filelength := by omega
+    simp [h1]
+  | succ n ih =>
+    intro k b m hm hb
+    unfold scan
+    have h1 : b < filelength := by omega
+    simp only [h1, if_true, eof, stopNow]
+    simp only [if_true, hm, decide_false, Bool.false_eq_true, if_false]
+    apply ih _ _ _ hm
+    simp [SDS_BLOCK_SIZE]
+    omega
+
+/-- the class the old rule failed on: the scan runs against an unbounded announced length (non-seekable input) -/
+def KF.sdsPipe (filelength : Int) : Prop := filelength = Sf.SdsScan.SF_COUNT_MAX
+
+instance (l : Int) : Decidable (KF.sdsPipe l) := by unfold KF.sdsPipe; infer_instance
+
+open Sf.SdsScan in
+/-- OLD RULE (before 62c7950): with an exhausted input (N = 0 in `sds_scan_bounded`) on a pipe, `marker`
+    kept its last non-zero value and the loop was still running after 10^15 iterations on a 19-byte input
+    (findings/C03-sds-pipe-scan.txt, now a regression script) -/
+theorem sds_scan_unbounded_old_rule : ∃ (o : Nat → Nat × Nat) (marker : Nat), (∀ k, 0 ≤ k → (o k).1 < 2) ∧
+    KF.sdsPipe SF_COUNT_MAX ∧ scan .old SF_COUNT_MAX o 1000000000000000 0 19 marker = none :=
+  ⟨eof, 0xF07E, by intro k _; simp [eof], rfl,
+    scan_eof_runs_old_rule SF_COUNT_MAX 1000000000000000 0 19 0xF07E (by decide) (by decide)⟩
+
+/-- non-vacuity: a 402-byte file (3 blocks) is scanned in 3 iterations under both rules; on the old
+    witness input the current rule stops at once -/
+example : Sf.SdsScan.scan .current 402 (fun _ => (2, 0xF07E)) 4 0 21 0xF07E = some 3 ∧
+    Sf.SdsScan.scan .old 402 (fun _ => (2, 0xF07E)) 4 0 21 0xF07E = some 3 ∧
+    Sf.SdsScan.scan .current Sf.SdsScan.SF_COUNT_MAX Sf.SdsScan.eof 1 0 19 0xF07E = some 0 ∧
+    Sf.SdsScan.scan .old Sf.SdsScan.SF_COUNT_MAX Sf.SdsScan.eof 50 0 19 0xF07E = none := by decide
 
 /-! ## 6. the chunk loops of the IFF-family parsers: same shape
 
@@ -591,29 +625,32 @@ theorem caf_info_count_partial (chunk_size : Int) (h : ¬ KF.cafInfoNegative chu
 /-- non-vacuity: ordinary sizes are outside the class; with a regular file the caller's own test keeps them small -/
 example : ¬ KF.cafInfoNegative 230 ∧ cafInfoCount 230 = 226 ∧ KF.cafInfoNegative 0xFF0000E6 ∧ ¬ KF.cafInfoNegative 0x80000003 ∧ KF.cafInfoNegative 0x80000004 := by decide
 
-/-! ## 7. NIST `sample_coding` : an unchecked sscanf -/
+/-! ## 7. NIST `sample_coding` : an unchecked sscanf
 
-/-- no read of indeterminate memory: whenever the `sample_coding -s` key is present, `str` has been written -/
-def nist_coding_full : Prop := ∀ matched : Nat, matched ≤ 2 → Sf.NistCoding.strDefined matched = true
+Repaired in /repo 6408f3b (`str [0] = 0` before the sscanf; known finding KF-C03-nist-sample-coding, now
+`fixed`, witness kept as a regression script). -/
 
-/-- the known-finding class: the key is present but a number and a word do not both follow it -/
+/-- no read of indeterminate memory, at full strength for the current code: whatever sscanf matched,
+    `str` is a C string when strcmp and "%s" read it -/
+theorem nist_coding (matched : Nat) : Sf.NistCoding.strDefined .current matched = true := rfl
+
+/-- the class the old rule failed on: the key is present but a number and a word do not both follow it -/
 def KF.nistCoding (matched : Nat) : Prop := matched < 2
 
 instance (m : Nat) : Decidable (KF.nistCoding m) := by unfold KF.nistCoding; infer_instance
 
-/-- fails: "sample_coding -s3" followed by a NUL byte matches one item only; strcmp and "%s" then walk
-    over uninitialised stack memory (witness: findings/C03-nist-sample-coding.txt, ASan stack-buffer-overflow) -/
-theorem nist_coding_fails : ¬ nist_coding_full := by
-  intro h
-  have := h 1 (by decide)
-  simp [Sf.NistCoding.strDefined] at this
+/-- OLD RULE (before 6408f3b): "sample_coding -s3" followed by a NUL byte matches one item only; strcmp
+    and "%s" then walked over uninitialised stack memory (findings/C03-nist-sample-coding.txt) -/
+theorem nist_coding_fails_old_rule : ∃ matched, matched ≤ 2 ∧ KF.nistCoding matched ∧ Sf.NistCoding.strDefined .old matched = false :=
+  ⟨1, by decide, by decide, by decide⟩
 
-theorem nist_coding_partial (matched : Nat) (h : ¬ KF.nistCoding matched) : Sf.NistCoding.strDefined matched = true := by
+/-- OLD RULE: outside that class `str` was defined -/
+theorem nist_coding_partial_old_rule (matched : Nat) (h : ¬ KF.nistCoding matched) : Sf.NistCoding.strDefined .old matched = true := by
   unfold KF.nistCoding at h
   simp [Sf.NistCoding.strDefined]
   omega
 
 /-- non-vacuity -/
-example : Sf.NistCoding.strDefined 2 = true ∧ KF.nistCoding 0 ∧ KF.nistCoding 1 ∧ ¬ KF.nistCoding 2 := by decide
+example : Sf.NistCoding.strDefined .current 0 = true ∧ Sf.NistCoding.strDefined .old 2 = true ∧ KF.nistCoding 0 ∧ ¬ KF.nistCoding 2 := by decide
 
 end Sf.C03
